@@ -70,6 +70,40 @@ def summary(obs: Obs, ref: RefResult) -> Dict[str, Any]:
     }
 
 
+def auto_parts(spec: Spec, max_parts: int = 16, rev: bool = True, skip: Sequence[str] = ()) -> List[Dict[str, Any]]:
+    """Partition a job's search tree on its finite selectors (task-set order, first outcome kind of fallible
+    nodes, first label of deciders, requested iteration count): one independent CrossHair tree per part."""
+    dims: List[Tuple[str, int]] = []
+    if rev:
+        dims.append(("rev_taskset", 2))
+    for nd in spec.nodes:
+        if nd.want_max > 0:
+            dims.append(("r.%s.want" % nd.name, nd.want_max + 1))
+    for nd in spec.nodes:
+        n_lab = len(nd.labels) + (1 if nd.unknown_label else 0)
+        if n_lab > 1:
+            dims.append(("r.%s.label0" % nd.name, n_lab))
+    for nd in spec.nodes:
+        if len(nd.kinds) > 1:
+            dims.append(("r.%s.kind0" % nd.name, len(nd.kinds)))
+    parts: List[Dict[str, Any]] = [{}]
+    for name, n in dims:
+        if name in skip:
+            continue
+        if len(parts) * n > max_parts:
+            continue
+        parts = [dict(p, **{name: i}) for p in parts for i in range(n)]
+    return parts
+
+
+def default_dur_nodes(spec: Spec) -> set:
+    """Durations of the input and the output node are fixed to 0 by default: nothing of the run is in flight
+    before the input node ends or (in the catalogue's shapes) needed after the output node started."""
+    if spec.dur_nodes is not None:
+        return set(spec.dur_nodes)
+    return {n.name for n in spec.nodes if n.name not in (spec.input, spec.output)}
+
+
 def engine_harness(
     spec_factory: Callable[[], Spec],
     verdict: Callable[[Obs, RefResult, Any], Optional[str]],
@@ -84,9 +118,14 @@ def engine_harness(
     def make() -> Any:
         spec = spec_factory()
         set_pools()
+        bk = dict(beh_kw or {})
+        if "dur_nodes" not in bk:
+            bk["dur_nodes"] = default_dur_nodes(spec)
+        elif bk["dur_nodes"] == "all":
+            bk["dur_nodes"] = None
 
         def h(sym: Any) -> Tuple[str, Dict[str, Any]]:
-            beh = Behaviour(sym, spec, **(beh_kw or {}))
+            beh = Behaviour(sym, spec, **bk)
             cfg = cfg_fn(sym) if cfg_fn else Cfg()
             if rev:
                 cfg.rev_taskset = sym.bool("rev_taskset")
@@ -107,8 +146,9 @@ def engine_harness(
 
 def doc(template: str, symbolic: Sequence[str], extra: Optional[Dict[str, Any]] = None) -> Dict[str, Any]:
     d = {"template": template, "symbolic": list(symbolic), "functions": ENGINE_FUNCS,
-         "bounds": "durations in [0,86399] (all completion orders incl. ties and zero); caller input in "
-                   "[-1000,1000]; loop iteration cap 3000 (Livelock); per-node outcome kinds as listed"}
+         "bounds": "durations of all nodes except the input and output node in [0,86399] (all completion orders incl. "
+                   "ties and zero; input/output node durations fixed to 0 unless the job says otherwise); caller input "
+                   "in [-1000,1000]; loop iteration cap 3000 (Livelock); per-node outcome kinds as listed"}
     if extra:
         d.update(extra)
     return d
